@@ -250,6 +250,7 @@ static int cmd_shrink(int argc, char **argv) {
 
 int main(int argc, char **argv) {
     setvbuf(stdout, NULL, _IOLBF, 0);
+    seams_load_watch_list();
     {   // known-finding call sites (from known_findings.json via the driver, or VERIF_KNOWN for manual replays)
         std::string k = arg_of(argc, argv, "--known", getenv("VERIF_KNOWN") ? getenv("VERIF_KNOWN") : "");
         size_t pos = 0;
